@@ -86,6 +86,21 @@ class P:
                 ops.append("@soak/EXEC:2:" + hx(src)); calls.append(("exec", 2, stmts, src))
                 ops.append("EXEC:3:" + hx(src)); calls.append(("exec", 3, stmts, src))
             items.append((" ".join(ops), ("seq", {1: {}, 2: {}, 3: {}}, calls, 0)))
+        # an evaluation that FAILS inside a user handler (Err or panic; operator of every kind, function) must be as invisible to
+        # what is parsed and evaluated afterwards - on this thread, on others, on other contexts - as one that succeeds
+        for fault in ("p", "e"):
+            for kind, reg, prog in (("I", "REGI:%s:6f:0:0:61" % hx("boom"), "7 boom 0"), ("P", "REGP:%s:61" % hx("boom"), "boom 7"),
+                                    ("S", "REGS:%s:61" % hx("boom"), "7 boom"), ("F", "REGF:%s:61" % hx("boom"), "boom(7)"),
+                                    ("Iset", "REGI:%s:14:1:1:61" % hx("boom"), "z boom 7")):
+                ops = ["H:61:%s" % fault, reg]
+                probes = [("EXEC:2:" + hx("1 + 2 * 3"), "n(0,7,0)"), ("PARSE:" + hx("a + b * c"), None), ("EXEC:3:" + hx("x = 2; x * 4"), "n(0,8,0)"),
+                          ("@t/EXEC:2:" + hx("[1, 2] == [1, 2] && 'a' beginWith 'a'"), "b(1)"), ("EXEC:1:" + hx("max(1, 2) + 1"), "n(0,3,0)")]
+                seq, want = list(ops), [None] * len(ops)
+                for runner in ("EXEC:1:", "@t/EXEC:1:", "@u/EXEC:1:"):
+                    seq.append(runner + hx(prog)); want.append("FAULT")
+                    for p_, w_ in probes:
+                        seq.append(p_); want.append(w_ if w_ else "PARSE")
+                items.append((" ".join(seq), ("after-fault", None, want, 0)))
         # what other threads parse CONCURRENTLY must not change what a later call does: rounds of a registration racing the first
         # uses of that spelling on other threads, each followed by a sequential use whose result is fixed by the registrations
         # made so far (whatever a racing parse left in a cache on the way must not be observable afterwards)
@@ -155,6 +170,21 @@ class P:
     def oracle(self, case, impl):
         kind, ctxs, calls, nset = case.meta
         outs = impl.split(" ")[nset:]
+        if kind == "after-fault":
+            for want, o in zip(calls, outs):
+                if want is None: continue
+                if want == "FAULT":
+                    if o.split(":")[0] not in ("PANIC", "ERR"): return "violates", "the failing handler's evaluation returned " + o[:40]
+                    continue
+                if o.split(":")[0] in ("PANIC", "DEADLOCK", "ABORT", "MISSING", "SKIP", "HANG"):
+                    return "violates", "after an evaluation failed inside a user handler, an unrelated call did not return: " + o[:30]
+                if want == "PARSE":
+                    if o.split(":")[0] != "OK": return "violates", "after an evaluation failed inside a user handler, an unrelated parse gave " + o[:40]
+                    continue
+                d = values.split_exec(o)
+                if d["cls"] != "OK" or d["value"] != want:
+                    return "violates", "after an evaluation failed inside a user handler, an unrelated evaluation gave %s, alone it gives %s" % (o[:40], want)
+            return "ok", ""
         if any(o.split(":")[0] in ("PANIC", "DEADLOCK", "ABORT", "MISSING", "SKIP") for o in outs):
             return "violates", "a call did not return: " + " ".join(o[:10] for o in outs)
         if kind == "race":
